@@ -706,6 +706,15 @@ fn out_of_range_variants(rule: &Rule, extended: bool, rng: &mut Rng) -> Vec<(Str
             }
         }
     }
+    // the std name cut to two characters, and the std offset removed
+    if let Some(pos) = base.find(|c: char| c.is_ascii_digit() || c == '+' || c == '-') {
+        let (name, rest) = base.split_at(pos);
+        if !name.starts_with('<') && name.len() >= 3 {
+            out.push((format!("{}{}", &name[..2], rest), "name_too_short".to_string()));
+            let after_off = rest.find(|c: char| c.is_ascii_alphabetic() || c == '<').unwrap_or(rest.len());
+            out.push((format!("{}{}", name, &rest[after_off..]), "offset_missing".to_string()));
+        }
+    }
     out.push((format!("{}x", base), "trailing_text".to_string()));
     out.push((format!("{},M3.2.0", base), "trailing_text".to_string()));
     out
